@@ -17,6 +17,7 @@ const devPkg = "pkg/scheduler/plugins/deviceshare"
 func c07(c *Ctx) {
 	r := c.R
 	c07inventory(c)
+	c07values(c)
 	r.Rule("PATH(tombstone): the delete handler treats a cache.DeletedFinalStateUnknown (delivered by value) like the object inside it: both reach the release, and no assertion to the pointer type exists")
 	c.Tombstone("PATH", devPkg, "nodeDeviceCache", "onPodDelete", "deletePod")
 	r.Decides("after every write of a device type's total or used ledger the free ledger is recomputed before the atomic section ends (free = total - used is re-established)")
